@@ -226,6 +226,10 @@ func (f *frame) instr(ins ssa.Instruction) {
 		n := f.term(x.Len)
 		c := f.term(x.Cap)
 		f.oblige("safety", "makeslice:"+f.keyOf(x, x.Pos()), nil, and(sx("<=", "0", n), sx("<=", n, c)), x.Pos())
+		// an allocation beyond the address space does not return (runtime: "len out of range" / out of memory):
+		// memory exhaustion is outside the properties; slices are at most 2^48 elements long in the model
+		f.assume(sx("<=", c, "281474976710656"))
+		vc.assumed["allocations of more than 2^48 elements do not return (memory exhaustion not modelled)"] = true
 		arr := f.allocRef("arr")
 		et := x.Type().Underlying().(*types.Slice).Elem()
 		f.zeroArray(arr, et)
